@@ -230,6 +230,36 @@ def ordered_under_delays(chk: core.Check, rng):
         os.unlink(path)
 
 
+def huge_block(chk: core.Check, rng):
+    """a data block of more than 64 MiB (one very large event: the bulk is a fragment of an unknown sub-detector) between ordinary blocks:
+    one record per event, in file order, through the real reader with several batch sizes"""
+    import numpy as np
+    import pybes3
+    n_big = (1 << 24) + 300_000                       # > 2^24 words = 64 MiB
+    big = rf.Event(header=[7, 1, 1234, 0, 0, 0, 1, 2, 3, 4],
+                   subdets=[rf.SubDet(0x55, [rf.Ros([rf.Rob([0] * n_big)])]), rf.SubDet(0xA4, [rf.Ros([rf.Rob([(5 << 16) | 9])])])])
+    blocks = [[rf.gen_event(rng, 0)], [big], [rf.gen_event(rng, 2)], [rf.gen_event(rng, 3)]]
+    data = rf.enc_file(blocks)
+    path = rc.write_tmp(data)
+    want = [0, 1, 2, 3]
+    try:
+        del data
+        for pb in (1, 1000, 2):
+            with rc.NativeBackedReader():
+                with pybes3.open_raw(path) as r:
+                    arr = r.arrays(n_block_per_batch=pb, decode_reid=False, sub_detectors=["muc"])
+            got = [int(x) for x in arr["evt_header"]["evt_no"]]
+            chk.count(1, key=f"huge-block-{pb}")
+            chk.hist("file_tie_mutation", "huge-block")
+            nm = [len(x) for x in arr["muc"].tolist()]
+            if got != want or nm[1] != 1:
+                chk.failing_input("pybes3.open_raw(path).arrays() on a file with one data block larger than 64 MiB", {"blocks": 4, "words_in_block_1": n_big + 60, "n_block_per_batch": pb, "sub_detectors": ["muc"]},
+                                  {"event_numbers": got, "muc_digis_per_event": nm}, {"event_numbers": want, "muc_digis_of_event_1": 1}, "one record per event in file order; the number of records equals the number of events in the file")
+                return
+    finally:
+        os.unlink(path)
+
+
 def long_streams(chk: core.Check, rng, thorough: bool):
     """streams long enough for any per-parser counter narrower than 32 bits to wrap: > 2^16 readout fragments in one buffer with the
     same channel hit again exactly 2^16 fragments later, a fragment with > 2^16 words, (thorough) > 2^16 events.
@@ -393,6 +423,8 @@ def main(chk: core.Check) -> int:
         ordered_under_delays(chk, rng)
     if not chk.failing:
         long_streams(chk, rng, thorough)
+    if not chk.failing:
+        huge_block(chk, rng)
     chk.coverage["traces_validated_against_impl"] = len(cases) + len(py_cases) + n_file_tie
     chk.coverage["installed_extension_also_run"] = cpp_unchanged
     chk.sample({"n_events": sum(len(b) for b in cases[6][0]), "sub_detectors": cases[6][1], "first_words": [hex(x) for x in bufs[6][0][:24]]})
